@@ -111,6 +111,7 @@ fn search(contract: &str, seed: u64, budget: u64) -> i32 {
     if c == "oneway" || c.starts_with("deliver_") || c.ends_with("transfer_file_from_remote") || c.ends_with("transfer_file_to_remote") || c.ends_with("tmp_path") {
         return oneway_w::search(false, budget > 60);
     }
+    if c.ends_with("sync_files") { return cli_w::search("cli_sync_files", seed, false); }
     if c.starts_with("run_") || c.starts_with("cli") {
         return cli_w::search(c, seed, false);
     }
